@@ -1,5 +1,5 @@
 (* Checkers evaluated by the correspondence run (indices of mismatching cases). *)
-From V Require Import Common.Base C05.Syntax C05.Lower.
+From V Require Import Common.Base C05.Syntax C05.Lower C05.Private.
 
 Fixpoint mism_from {A} (f : A -> bool) (l : list A) (i : nat) : list nat :=
   match l with
@@ -36,3 +36,15 @@ Definition lower_ok (c : feat * expr * expr) : bool :=
   let '(F, src, observed) := c in
   expr_eqb (canon_expr (obs_norm (lower F src))) (canon_expr (obs_norm observed)).
 Definition check_lower := mismatches lower_ok.
+
+(* private names: (features, table of the private names of the class, source
+   form, tree recovered from esbuild's output) *)
+Fixpoint names_of (l : list (Z * pname)) (x : Z) : pname :=
+  match l with
+  | [] => mkPname KField 0 0 0 0
+  | (k, p) :: r => if k =? x then p else names_of r x
+  end.
+Definition priv_ok (c : feat * list (Z * pname) * pform * pexp) : bool :=
+  let '(F, l, f, observed) := c in
+  pexp_eqb (pcanon_exp (fst (plower (names_of l) F f 0))) (pcanon_exp observed).
+Definition check_priv := mismatches priv_ok.
